@@ -18,6 +18,7 @@ EXPLANATION = (
     "predict_tags the stored tag scores are cleared and, when score storing is on, resized to len()."
 )
 THOROUGH_CONFIGS = [C.NO_CHARWISE, C.NO_FIX]
+QUICK_CONFIGS = [C.NO_FIX]
 NOT_DECIDED = ["numeric sums of tag scores", "suffix-merged tag weights (merge arithmetic)"]
 
 TP = "vaporetto::predictor::TagPredictor::predict"
@@ -37,6 +38,7 @@ def run(chk):
     r063(chk, w)
     r064(chk, w)
     r066(chk, w)
+    r067(chk, w)
 
 
 def _loops_nested(b):
@@ -405,3 +407,34 @@ def r066(chk, w):
                    "(early return for predictors without tag models)")
         chk.ob("R06.6", "predict_tags:tag_scores(store=%s)" % fv, ok, why, site=C.site(b), sample={"store_flag": fv, "clears": len(cl), "resizes": len(rs)} if n <= 3 else None)
     chk.floor("R06.6", "return paths", n, 3)
+
+
+def r067(chk, w):
+    """tag weight vectors enter the suffix merger unchanged: PositionalWeightWithTag::add_assign adds the vectors of a pattern
+    and of its suffixes element by element over the common prefix (zip), which is the whole vector only if every vector of a
+    (token, position) key has the full class count.  with_tag must therefore store exactly its argument under exactly the
+    (token, position) key it was given."""
+    chk.rule("R06.7", "tag weight vectors enter the suffix merger unchanged (full class count)")
+    fn = "vaporetto::predictor::PositionalWeightWithTag::with_tag"
+    if w.body(fn) is None:
+        if chk.config == "W":
+            chk.undecided("R06.7", "with_tag", "%s not found" % fn)
+        return
+    b, it, outs = C.run_fn(w, fn)
+    chk.fn(fn)
+    rows = set()
+    for o in outs:
+        if o.kind != "return":
+            rows.add((o.kind, str(o.info)[:60]))
+            continue
+        ins = [e for e in o.trace if e[0] == "call" and (e[2] or "").endswith("HashMap::insert")]
+        other = [e[2] for e in o.trace if e[0] == "call" and not (e[2] or "").endswith("HashMap::insert") and not (e[2] or "").endswith("HashMap::new")
+                 and not (e[2] or "").endswith("::default")]
+        for e in ins:
+            k, v = e[3][1], e[3][2]
+            key_ok = k[0] == "agg" and dict(k[2]).get("0") == absint.SYM("arg1") and dict(k[2]).get("1") == absint.SYM("arg2")
+            rows.add(("insert", "key=(token_id, rel_position)" if key_ok else "key=%s" % (k,), "value=tag_weight" if v == absint.SYM("arg3") else "value=%s" % (v,), tuple(sorted(set(other)))))
+    want = {("insert", "key=(token_id, rel_position)", "value=tag_weight", ())}
+    chk.ob("R06.7", "with_tag:stores-argument-unchanged", rows == want,
+           "PositionalWeightWithTag::with_tag derives %s; expected a single insert of the unmodified weight vector under (token_id, rel_position) and no other computation: "
+           "a shortened / transformed vector loses classes when the weights of a suffix n-gram are zipped onto it" % sorted(rows, key=str), site=C.site(b), sample={"rows": sorted(map(str, rows))})
